@@ -248,8 +248,20 @@ def run_case(spec, ctx):
             # the solver's vector must be feasible for the approximating program, otherwise the
             # number says nothing about the approximation (observed: ECOS 'optimal' at degree 8
             # with rows violated by 0.57)
-            if C.audit_solution(f.to_socp(d), m.solution.x, tol=1e-5):
+            fa = f.to_socp(d)
+            if C.audit_solution(fa, m.solution.x, tol=1e-5):
                 ctx.count('soc_solver_vector_infeasible:' + sname)
+                prev = None
+                continue
+            # the approximation squares d times, so a residual r of the solver's vector in the
+            # innermost rows / cones moves the exponential by about 2**d * r (observed: ECOS
+            # 'optimal' at degree 8 with cone residual 7e-7, y below z*exp(x/z) by 4.4e-4, value
+            # off by 1.5e-3, while degrees 4-6 agree with the exact optimum to 1e-6).  Such a
+            # vector is too inaccurate to say anything about the approximation: not judged.
+            resid = max([float(v_) for _k, v_ in C.audit_solution(fa, m.solution.x, tol=0.0)] +
+                        [0.0])
+            if resid * 2.0 ** d > 1e-4:
+                ctx.count('soc_solver_vector_too_inaccurate_for_degree:%s:%d' % (sname, d))
                 prev = None
                 continue
             sx = np.asarray(m.solution.x, float)[:n0]
